@@ -28,6 +28,28 @@ def _callee_fns(ctx, fn, call):
     return out
 
 
+def effective_kw(ctx, g, depth=0):
+    """Keyword names a callable accepts: its named parameters, plus -- when it
+    has **kwargs -- the names it reads from them and the names accepted by the
+    callables it spreads them into (cut/cat/stack/annex -> their views)."""
+    out = set(g.params)
+    if not g.kwarg or depth > 2:
+        return out
+    kw = g.kwarg
+    for n in own_nodes(g.node):
+        if isinstance(n, ast.Call):
+            if isinstance(n.func, ast.Attribute) and isinstance(n.func.value, ast.Name) and n.func.value.id == kw and \
+                    n.func.attr in ('get', 'pop', 'setdefault') and n.args and isinstance(n.args[0], ast.Constant):
+                out.add(n.args[0].value)
+            if any(k.arg is None and isinstance(k.value, ast.Name) and k.value.id == kw for k in n.keywords):
+                for h, b in _callee_fns(ctx, g, n):
+                    out |= effective_kw(ctx, h, depth + 1)
+        elif isinstance(n, ast.Subscript) and isinstance(n.value, ast.Name) and n.value.id == kw and \
+                isinstance(n.slice, ast.Constant):
+            out.add(n.slice.value)
+    return out
+
+
 def _local_dict(fn, name):
     """keys -> value nodes of a local that is bound exactly once, to dict(k=v, ...) or {'k': v, ...}
     and never updated; None when it is anything else"""
